@@ -296,6 +296,7 @@ class Verdict:
         self.hits = {}  # finding id -> count
         self.viol = []  # (case dict)
         self.drift = []
+        self.cats = {}  # unattributed mismatches by (spec tags, differing paths)
 
     def mismatch(self, case, tags=(), paths=()):
         """case: JSON-able description.  tags: deviation tags the *specification* assigns to the
@@ -308,6 +309,10 @@ class Verdict:
                     self.hits[f["id"]] = self.hits.get(f["id"], 0) + 1
                     return f["id"]
         self.viol.append(case)
+        k = "|".join(sorted(tags)) + " :: " + ",".join(sorted(set(paths))[:4])
+        if k not in self.cats:
+            self.cats[k] = {"n": 0, "example": case.get("ddl", "")[:300] if isinstance(case, dict) else ""}
+        self.cats[k]["n"] += 1
         return None
 
     def finish(self, replay_dir=None):
@@ -319,7 +324,7 @@ class Verdict:
             os.makedirs(REPLAYS, exist_ok=True)
             path = os.path.join(REPLAYS, f"{self.pid}_{int(time.time())}.json")
             with open(path, "w") as fh:
-                json.dump({"property": self.pid, "violations": self.viol[:50], "total": len(self.viol)}, fh,
+                json.dump({"property": self.pid, "violations": self.viol[:50], "total": len(self.viol), "categories": self.cats}, fh,
                           indent=1, default=repr)
             print(f"VIOLATION property={self.pid} replay={path}")
             first = self.viol[0]
